@@ -171,6 +171,16 @@ func specs() []*spec {
 			Assumptions:    []string{"an endpoint present in the code but absent from the specification table stops the check with exit 2 (specification incomplete)", "a replica that some trusted replica trusts is vouched for: its updates are re-published by that replica, so the pubsub clause is judged only when nobody ever trusted the publisher"},
 		},
 		{
+			ID: "C17", Harness: "membersim", Level: "exploration",
+			Batch: 1, QuickSecs: 60, ThoroughSecs: 900, PlanTimeoutS: 180,
+			DetSamples: 8, DetThreshold: 0.9,
+			RequiredProbes: []string{"adds_succeeded", "removals_succeeded", "agreement_checked", "joiner_pinsets_checked", "joiner_ready_observed", "removed_peer_stopped", "removed_peer_data_cleaned", "leader_removed", "self_removed", "removal_of_absent_peer", "add_of_present_peer", "last_peer_removal_refused", "rehoming_checked", "issued_at_follower", "issued_at_leader", "final_pinsets_checked", "kill", "restart", "partition"},
+			Rule:           "plan = 2-4 peer slots of which 1..all bootstrap a real Raft cluster of whole ipfscluster.Cluster peers (heartbeat 100-400 ms, SnapshotThreshold 2-64, TrailingLogs 0-16, CommitRetries 0-2, peer watch interval 0.5-3 s, factor pairs, re-pinning on/off, link latency 1-40 ms) + 5-35 steps: Pin/Unpin at any member (some overlapping the next step), Join of a fresh staging peer through any member, PeerAdd of a running staging peer at any member, PeerRemove of leader / follower / self / absent peer at any member, graceful stop with or without leave_on_shutdown and restart, crash (copy of the tmpfs folders at that instant) and restart on the copy, link cuts, isolation, heal; then everything heals, members that are down restart, and a fresh pin must go through. Non-trivial = >=1 operation and >=1 fault fired; distinct = distinct canonical trace digest.",
+			Real:           []string{"ipfscluster.Cluster (PeerAdd, PeerRemove, Join, vacatePeer/repinFromPeer, watchPeers, ready, Shutdown with leave and clean, Pin/Unpin, RPC server)", "consensus/raft (Consensus.AddPeer/RmPeer/WaitForSync/Peers/Clean, raftWrapper, CleanupRaft)", "go-libp2p-raft, hashicorp/raft, raft-boltdb + BoltDB, file snapshot store on tmpfs", "pstoremgr, allocator/descendalloc, go-libp2p-kad-dht dual DHT, go-libp2p-gorpc, libp2p basic host on mocknet"},
+			Model:          []string{"pin tracker, IPFS connector, informer (recording models)", "peer monitor: real metrics store filtered by the peer's own consensus peerset, fed with a valid metric for every slot"},
+			Assumptions:    []string{"a call that fails or does not return within 90 s may or may not have taken effect; what the members then report decides", "a peer removed while it was down, cut off or while a fault was active cannot hear about it (Raft stops replicating to it): the stop-and-clean clause is judged only for peers that were up and connected with no fault active, and plans in which such an unaware ex-member is running do not judge the final agreement (probe final_agreement_skipped_zombie)", "residual scheduling nondeterminism of the heavy stack: exact-trace replay >= 90% (DESIGN §4), oracles are schedule independent"},
+		},
+		{
 			ID: "C14", Harness: "raftsim", Level: "exploration",
 			Batch: 1, QuickSecs: 45, ThoroughSecs: 600, PlanTimeoutS: 120,
 			DetSamples: 8, DetThreshold: 0.9,
